@@ -677,7 +677,7 @@ func errorResultIndex(sig *types.Signature) int {
 }
 
 func ruleP8(c *Ctx, rels ...string) {
-	c.Rule("P8", "no error is dropped on a statement path: every call to a module function or storage.Store/Graph method that returns an error has that result bound and used (tested, returned, stored); no expression statement, blank assignment or dead variable", 60)
+	c.Rule("P8", "no error is dropped on a statement path: every call to a module function or storage.Store/Graph method that returns an error has that result bound and used (tested, returned, stored); no expression statement, blank assignment or dead variable", 40)
 	for _, fn := range c.srcFuncs(rels...) {
 		allInstrs(fn, func(in ssa.Instruction) {
 			call, ok := in.(*ssa.Call)
